@@ -18,7 +18,7 @@ def run(ctx):
 
     # R1 cleaning pass -------------------------------------------------------------
     ctx.rule("R1", "cleaning pass: control-character strip, whitespace strip and escape upper-casing lie on every data path from the url parameter to the parser, control strip before whitespace strip; CONTROL_CHARS_RE covers C0, DEL and C1")
-    parse_nodes = [x for x in P.subterms(t) if U.is_parse(x)]
+    parse_nodes = [x for x in P.subterms(t) if x[0] == "call" and U.is_parse(x)]
     ctx.require_instances("R1", len(parse_nodes), 1, "parser calls in canonicalize_url")
     for pn in parse_nodes[:1]:
         arg = pn[2][0]
